@@ -134,7 +134,10 @@ func parseValue(d *jx.Decoder) (pcommon.Value, bool, error) {
 		if num.IsInt() {
 			n, err := num.Int64()
 			if err != nil {
-				return val, false, err
+				// Integer does not fit into int64: keep the digits as written
+				// instead of failing the whole line.
+				val = pcommon.NewValueStr(num.String())
+				break
 			}
 			val = pcommon.NewValueInt(n)
 		} else {
